@@ -45,7 +45,9 @@ def strip_times(d):
 def library_result(path, mode, fin, strict):
     from pymwp import Parser, Result, Analysis, LoopAnalysis
     from pymwp.file_io import loc
-    ast = Parser.parse(path, None, use_cpp=True, cpp_path='gcc', cpp_args='-E')
+    # the reference reads the text WITHOUT the preprocessor: for directive-free, comment-free text the property says the
+    # outcome must not depend on it, so every CLI run (with or without --no_cpp) is held against this one
+    ast = Parser.parse(path, None, use_cpp=False)
     res = Result()
     res.program.program_path = path
     res.program.n_lines = loc(path)
@@ -68,7 +70,8 @@ def one(base, k, src, combo):
     wd = os.path.join(base, 'w%d' % k)
     os.makedirs(wd)
     # the input file name varies too: the default output is output/<stem>.json, whatever the stem ends in
-    fname = ['prog.c', 'calc.c', 'a.b.c', 'x_c.c', 'c.c', 'mmm.c', 'noext'][(k // 5) % 7]
+    # (names not ending in .c too: what the preprocessor is given must not depend on the input's extension)
+    fname = ['prog.c', 'calc.c', 'a.b.c', 'x_c.c', 'prog.i', 'c.c', 'mmm.c', 'noext', 'prog.h'][k % 9]
     with open(os.path.join(wd, fname), 'w') as f:
         f.write(src)
     flags = ['--mode', mode]
@@ -79,7 +82,7 @@ def one(base, k, src, combo):
     if no_save:
         flags.append('--no_save')
     # the shape of the --out path varies with the job: nested directory, bare file name, ./name, absolute, deep
-    out_rel = ['res/my.json', 'bare.json', './dot.json', 'a/b/c/deep.json', os.path.join(wd, 'abs', 'abs.json')][k % 5]
+    out_rel = ['res/my.json', 'bare.json', './dot.json', 'a/b/c/deep.json', os.path.join(wd, 'abs', 'abs.json')][(k // 9) % 5]
     if out:
         flags += ['--out', out_rel]
     if no_cpp:
